@@ -52,7 +52,7 @@ PM_TAIL = r"(,|[ ]of[ ]the|,[ ]of[ ]the)?[ ]([0-9]th[ ])?(P\.M\.|PM|Principal[ ]
 # --- Sections ------------------------------------------------------------
 SEC_WORD = r"(Section|Sec|Sec\.|§)"
 SEC_WORD_PL = r"(Section|Sections|Sec|Secs|Sec\.|§)"
-THROUGH = r"(-|–|—|through|thru|to)"
+THROUGH = r"(-|–|—|through\.?|thru\.?|to)"      # the abbreviation may carry its period ('Lots 1 thru. 4')
 LIST_SEP = (r"(,[ ]|[ ]and[ ]|[ ]&[ ]|,[ ]and[ ]|[ ]-[ ]|-|[ ]–[ ]|"
             r"[ ]through[ ]|[ ]thru[ ]|[ ]to[ ])")
 MULTISEC = (
@@ -119,6 +119,8 @@ ORDINARY_WORDS = (
     'former', 'Former railroad', 'summer', 'Summer pasture', 'farmer', 'Palmer Addition', 'commercial', 'numerous',
     'merchant', 'hammer', 'emergency', 'supreme', 'compromise', 'pump', 'pump house', 'camp', 'ramp',
     'pipeline', 'easement', 'railroad', 'addition', 'pasture', 'homestead', 'reservoir', 'township road',
+    # units and times written after a number
+    '5 km', '30 cm', 'mm', '10 a.m.', '9 am',
 )
 
 # section / lot lists followed by an aliquot that starts with E or W: two
